@@ -3,6 +3,7 @@ package main
 import (
 	"encoding/json"
 	"fmt"
+	"math"
 	"math/rand"
 	"sort"
 	"strings"
@@ -104,7 +105,8 @@ func genMember(rng *rand.Rand, m string) map[string]any {
 	}
 	switch m {
 	case "Cat":
-		v["lives"] = rng.Intn(9)
+		// 64-bit extremes and the first integer float64 cannot hold: a detour through float64 changes them
+		v["lives"] = []int64{int64(rng.Intn(9)), int64(rng.Intn(9)), 9007199254740993, math.MaxInt64, math.MinInt64}[rng.Intn(5)]
 	case "Dog":
 		v["bark"] = rng.Intn(2) == 0
 	case "Bird":
@@ -112,6 +114,31 @@ func genMember(rng *rand.Rand, m string) map[string]any {
 		delete(v, "name")
 	}
 	return v
+}
+
+// onlyBigIntDiff: got equals want except for members whose wanted value is an integer beyond 2^53.
+func onlyBigIntDiff(want map[string]any, got json.RawMessage) bool {
+	gAny, err := decodeExact(got)
+	g, ok := gAny.(map[string]any)
+	if err != nil || !ok || len(g) != len(want) {
+		return false
+	}
+	some := false
+	for k, w := range want {
+		gv, ok := g[k]
+		if !ok {
+			return false
+		}
+		if canon(gv) == canon(w) {
+			continue
+		}
+		n, isInt := w.(int64)
+		if !isInt || (n <= 1<<53 && n >= -(1<<53)) {
+			return false
+		}
+		some = true
+	}
+	return some
 }
 
 func coqUObj(m map[string]any) (string, bool) {
@@ -362,7 +389,11 @@ func runC09(r *Report, rng *rand.Rand, thorough bool) {
 			}
 		case "lossless":
 			if outs[0].Error != "" || !jsonEqual(outs[0].Value, json.RawMessage(canon(m.init))) {
-				r.Violate("unmarshal_marshal_lossy", fmt.Sprintf("%s: %s -> %s %s", m.u.Name, canon(m.init), string(outs[0].Value), outs[0].Error), replay)
+				sig := "unmarshal_marshal_lossy"
+				if m.u.Addl && outs[0].Error == "" && onlyBigIntDiff(m.init, outs[0].Value) {
+					sig = "union_with_additional_properties_narrows_member_integers"
+				}
+				r.Violate(sig, fmt.Sprintf("%s: %s -> %s %s", m.u.Name, canon(m.init), string(outs[0].Value), outs[0].Error), replay)
 			}
 		case "modify":
 			want := map[string]any{}
@@ -372,7 +403,11 @@ func runC09(r *Report, rng *rand.Rand, thorough bool) {
 			want["meta"] = "changed"
 			last := outs[len(outs)-1]
 			if last.Error != "" || !jsonEqual(last.Value, json.RawMessage(canon(want))) {
-				r.Violate("fixed_property_changed_after_unmarshal_not_marshalled", fmt.Sprintf("%s: decoded %s, set meta = changed, marshalled %s %s", m.u.Name, canon(m.init), string(last.Value), last.Error), replay)
+				sig := "fixed_property_changed_after_unmarshal_not_marshalled"
+				if m.u.Addl && last.Error == "" && onlyBigIntDiff(want, last.Value) {
+					sig = "union_with_additional_properties_narrows_member_integers"
+				}
+				r.Violate(sig, fmt.Sprintf("%s: decoded %s, set meta = changed, marshalled %s %s", m.u.Name, canon(m.init), string(last.Value), last.Error), replay)
 			}
 		case "dispatch":
 			want, ok := mappedTo(m.discValue)
@@ -393,8 +428,8 @@ func runC09(r *Report, rng *rand.Rand, thorough bool) {
 			lastIdx := 2
 			if m.kind == "from" {
 				// As after From
-				var as map[string]any
-				_ = json.Unmarshal(outs[1].Value0, &as)
+				asAny, _ := decodeExact(outs[1].Value0)
+				as, _ := asAny.(map[string]any)
 				if outs[1].Error != "" {
 					r.Violate("as_after_from_fails", fmt.Sprintf("%s.As%s: %s", m.u.Name, name, outs[1].Error), replay)
 					continue
@@ -420,8 +455,8 @@ func runC09(r *Report, rng *rand.Rand, thorough bool) {
 					expect[k] = v
 				}
 			}
-			var marshalled map[string]any
-			_ = json.Unmarshal(outs[lastIdx].Value, &marshalled)
+			mAny, _ := decodeExact(outs[lastIdx].Value)
+			marshalled, _ := mAny.(map[string]any)
 			if outs[lastIdx].Error != "" {
 				r.Violate("marshal_fails", outs[lastIdx].Error, replay)
 				continue
